@@ -3,13 +3,20 @@ package main
 import (
 	"context"
 	"fmt"
+	"net"
 	"net/http/httptest"
 	"strings"
+	"sync"
 	"time"
 
 	"google.golang.org/grpc"
+	"google.golang.org/grpc/credentials/insecure"
+	"google.golang.org/grpc/metadata"
+	"google.golang.org/grpc/reflection"
+	rpb "google.golang.org/grpc/reflection/grpc_reflection_v1alpha"
 	"google.golang.org/protobuf/proto"
 	"google.golang.org/protobuf/reflect/protoreflect"
+	"google.golang.org/protobuf/reflect/protoregistry"
 	"google.golang.org/protobuf/types/dynamicpb"
 	"larking.io/larking"
 )
@@ -20,6 +27,9 @@ import (
 type c15Env struct {
 	mux     *larking.Mux
 	muxS    *larking.Mux // the same service behind a stats handler and interceptors (cases "C15T <hex> s")
+	muxP    *larking.Mux // the same service on a backend behind RegisterConn (cases "C15T <hex> p")
+	mu      sync.Mutex
+	caseID  int
 	invoked bool
 	has     bool
 	dl      time.Time
@@ -57,6 +67,43 @@ func c15Setup() *c15Env {
 	if err != nil {
 		panic(err)
 	}
+	// the same service on a grpc-go backend on loopback, reached through RegisterConn (cases "C15T <hex> p"): there the
+	// handler of the RPC is the backend's, and the deadline it runs under is the one the call came with
+	files := &protoregistry.Files{}
+	if err := files.RegisterFile(fd); err != nil {
+		panic(err)
+	}
+	// (a backend call may outlive the front call that gave up on it: the backend's handler records only for the case whose
+	// number it finds in the forwarded request metadata)
+	bimpl := &dynImpl{Unary: func(ctx context.Context, method string, req proto.Message, out protoreflect.MessageDescriptor) (proto.Message, error) {
+		now := time.Now()
+		md, _ := metadata.FromIncomingContext(ctx)
+		e.mu.Lock()
+		if v := md.Get("x-c15-case"); len(v) == 1 && v[0] == fmt.Sprint(e.caseID) {
+			e.invoked, e.at = true, now
+			e.dl, e.has = ctx.Deadline()
+		}
+		e.mu.Unlock()
+		return dynamicpb.NewMessage(out), nil
+	}}
+	gs := grpc.NewServer()
+	gs.RegisterService(serviceDesc(fd.Services().Get(0), bimpl), nil)
+	rpb.RegisterServerReflectionServer(gs, reflection.NewServer(reflection.ServerOptions{Services: gs, DescriptorResolver: c18pResolver{files}}))
+	lis, err := net.Listen("tcp", "127.0.0.1:0")
+	if err != nil {
+		panic(err)
+	}
+	go gs.Serve(lis)
+	conn, err := grpc.Dial(lis.Addr().String(), grpc.WithTransportCredentials(insecure.NewCredentials()))
+	if err != nil {
+		panic(err)
+	}
+	if e.muxP, err = larking.NewMux(); err != nil {
+		panic(err)
+	}
+	if err := e.muxP.RegisterConn(context.Background(), conn); err != nil {
+		panic(err)
+	}
 	c15env = e
 	return e
 }
@@ -76,7 +123,10 @@ func c15Run(o *out, input string) {
 		panic("bad C15 case " + input)
 	}
 	e := c15Setup()
+	e.mu.Lock()
+	e.caseID++
 	e.invoked, e.has = false, false
+	e.mu.Unlock()
 	val := string(unhx(f[1]))
 	r := httptest.NewRequest("POST", "/verif.c15.Tsvc/Unary", strings.NewReader(string(grpcFrame(nil))))
 	r.ProtoMajor, r.ProtoMinor = 2, 0
@@ -88,6 +138,7 @@ func c15Run(o *out, input string) {
 		r.Header.Set("Content-Type", "application/grpc-web+proto")
 	}
 	r.Header["Grpc-Timeout"] = []string{val}
+	r.Header.Set("X-C15-Case", fmt.Sprint(e.caseID))
 	w := httptest.NewRecorder()
 	t0 := time.Now()
 	func() {
@@ -99,10 +150,14 @@ func c15Run(o *out, input string) {
 		}()
 		if len(f) > 2 && f[2] == "s" {
 			e.muxS.ServeHTTP(w, r)
+		} else if len(f) > 2 && f[2] == "p" {
+			e.muxP.ServeHTTP(w, r)
 		} else {
 			e.mux.ServeHTTP(w, r)
 		}
 	}()
+	e.mu.Lock()
+	defer e.mu.Unlock()
 	gs := w.Header().Get("Grpc-Status")
 	if gs == "" {
 		gs = w.Result().Trailer.Get("Grpc-Status")
@@ -139,6 +194,10 @@ func c15Gen(o *out, r *rng, tier string) {
 			// the same header on a mux with a stats handler and an interceptor
 			o.count("behind-stats/" + tag)
 			c15Run(o, "C15T "+hx([]byte(s))+" s")
+		}
+		if nemit%5 == 3 {
+			o.count("proxied-backend/" + tag)
+			c15Run(o, "C15T "+hx([]byte(s))+" p")
 		}
 		if nemit%5 == 2 {
 			o.count("grpc-web/" + tag)
